@@ -1,21 +1,26 @@
 """C09: point-group operations form a group acting on tensors.
 
 spec  : PointGroupAlg.tla (PointSymmetry / PointGroup / Transform transcribed on exact integer matrices and tensors)
-        MC_PointGroupAlg        every generator list of a catalogue (<= 2 generators quick, <= 3 thorough) on cubic-type
-                                (sc, tet, ort, fcc, bcc) and hexagonal-type (hex, ohex) lattices: closure loop pass by pass,
-                                group axioms, lattice invariance, stars, symmetric_grid, dict round trip; tensor action,
-                                action law, symmetrisation for ranks 0..3 and pairs of the predefined Transforms
+        MC_PointGroupAlg        every generator list of a catalogue (<= 2 generators quick, <= 3 thorough; lists that name an
+                                operation twice included) on cubic-type (sc, tet, ort, fcc, bcc) and hexagonal-type (hex, ohex)
+                                lattices: closure loop pass by pass, group axioms, lattice invariance, stars, symmetric_grid,
+                                dict round trip; tensor action, action law, symmetrisation for ranks 0..3 (4: thorough)
         MC_PointGroupLoop       the closure loop statement by statement against the operators
         MC_PointGroupTransforms Transform / TransformProduct: involutions, commuting pairs, product rule
-bind  : spec -> code: every TLC state is replayed on the real PointGroup / PointSymmetry / Transform objects (exact
-        comparison after rounding with verified integrality); code -> spec: seeded random generator sets (any element of
-        O_h x {1,T} or D_6h x {1,T}), lattices, tensors, k-points are run on the real code and the recorded results validated
-        by TLC against PointGroupAlgRec.tla.
+bind  : spec -> code: every TLC state is replayed on the real PointGroup / PointSymmetry / Transform objects.  What the
+        property does not fix is NOT compared: the list PointGroup.symmetries and the star are compared as sets (the spec's
+        per-element data are indexed through the permutation between the two orders), exceptions are accepted by kind
+        (any exception = "rejected"), Transform objects are described by their effect on a probe tensor.
+        code -> spec: seeded random generator sets (any element of O_h x {1,T} or D_6h x {1,T}), lattices, tensors, k-points,
+        point groups of irrep space groups (PointGroup(spacegroup=...)), Rotation(n, axis) / Mirror(axis) objects,
+        PointGroup.symmetrize(EnergyResult) are run on the real code and the recorded results validated by TLC against
+        PointGroupAlgRec.tla.
 Tensors on hexagonal lattices are compared through their components in the reciprocal hexagonal frame (integers there).
 """
 import copy
 import itertools
 import math
+import os
 import random
 import re
 import warnings
@@ -31,18 +36,24 @@ PROPS = {
     "C09": dict(level="model_checking",
                 technique="TLC exhaustive on PointGroupAlg.tla (closure loop of PointGroup.__init__, group axioms, lattice invariance, "
                           "stars, tensor action law and symmetrisation over catalogue generator lists, lattices, ranks 0-3, Transform pairs) "
-                          "+ replay of every TLC state on the real PointGroup/PointSymmetry/Transform + TLC validation of recorded random calls",
-                text="TLC generates the group of every generator list (<=2 generators quick, <=3 thorough) of a catalogue of crystallographic "
-                     "and magnetic operations on 7 lattices and checks closure, identity, inverses, |G|<=96, lattice invariance, star "
-                     "(each image once), the action law Act(g,Act(h,T))=Act(gh,T), idempotence and invariance of the symmetrisation; "
-                     "every state is replayed on the real code (symmetries in order, products, check_basis_symmetry, symmetric_grid, star, "
-                     "as_dict round trip, transform_tensor, symmetrize_tensor) and random real calls are validated by TLC.",
+                          "+ replay of every TLC state on the real PointGroup/PointSymmetry/Transform (sets, not orders) + TLC validation of recorded random calls",
+                text="TLC generates the group of every generator list (<=2 generators quick, <=3 thorough, repeated generators included) of a catalogue of "
+                     "crystallographic and magnetic operations on 7 lattices and checks closure, identity, inverses, no duplicates, |G|<=96, lattice invariance, "
+                     "star (each image once), the action law Act(g,Act(h,T))=Act(gh,T), idempotence and invariance of the symmetrisation; every state is "
+                     "replayed on the real code: the set of elements, products, check_basis_symmetry, symmetric_grid, transform_reduced_vector, star (as a set of "
+                     "images modulo the lattice, each once), as_dict round trip (set), transform_tensor per element, symmetrize_tensor, PointGroup.symmetrize of "
+                     "an EnergyResult; lattices with an irrational axis ratio (float twins of tet/ort/hex) must give the same answers. Random real calls "
+                     "(quick 120, thorough 800: groups, products, stars, actions incl. rank 4 and swap_axes transforms, action law, symmetrisation, grids, dict, "
+                     "TransformProduct, Rotation/Mirror objects, point groups of irrep space groups) are validated by TLC.",
                 note="the action law needs transformTR/transformInv to be commuting involutions (spec predicate ValidPair; of the 36 pairs of "
                      "predefined transforms only {odd_trans_021, odd_trans_102} and {odd_trans_102, trans} fail it; no formula declares such a pair); "
-                     "float tolerance 1e-7 only for the integrality of projected values (observed 1e-14)",
+                     "float tolerance 1e-7 only for the integrality of projected values (observed 1e-14). The order of PointGroup.symmetries / of the star and "
+                     "which representative of a star point is listed are information only (part 'order_info'). Variant keep_dups (both copies of a repeated "
+                     "generator kept, the behaviour before repair 36802561) must be rejected by TLC.",
                 ref="DESIGN.md 3.3"),
 }
 
+TAG = f"_p{os.getpid()}"           # scratch names are unique per process: several checks may run at once
 TOL = 1e-7
 SQ3 = math.sqrt(3.0)
 FRAME = {"cub": np.eye(3), "hex": np.array([[1.0, 1.0 / SQ3, 0.0], [0.0, 2.0 / SQ3, 0.0], [0.0, 0.0, 1.0]])}
@@ -51,6 +62,12 @@ LATS = {"sc": ("cub", [[1, 0, 0], [0, 1, 0], [0, 0, 1]]), "tet": ("cub", [[1, 0,
         "bcc": ("cub", [[-1, 1, 1], [1, -1, 1], [1, 1, -1]]), "hex": ("hex", [[1, 0, 0], [0, 1, 0], [0, 0, 1]]),
         "ohex": ("hex", [[1, 0, 0], [-1, 2, 0], [0, 0, 1]])}
 TRANSFORM_NAMES = ["ident", "odd", "odd_conj", "odd_trans_021", "odd_trans_102", "trans"]
+
+
+GOLD = (1.0 + math.sqrt(5.0)) / 2.0
+# float twins: the same lattice with irrational axis ratios (Cartesian y, z components of the reciprocal vectors scaled);
+# every group that leaves the integer lattice invariant leaves the twin invariant and has the same reduced matrices
+TWIN = {"tet": (1.0, 1.0, GOLD), "ort": (1.0, math.sqrt(0.87), GOLD / 1.5), "hex": (1.0, 1.0, GOLD), "ohex": (1.0, 1.0, GOLD / 1.5)}
 
 
 class NonIntegral(Exception):
@@ -70,14 +87,20 @@ def wb():
     return ps
 
 
+def cpu_s():
+    t = os.times()
+    return t.user + t.system + t.children_user + t.children_system
+
+
 # ----------------------------------------------------------------------------------------- frames, lattices, elements
-def recip_basis(fam, A):
-    return np.array(A, dtype=float) @ FRAME[fam]
+def recip_basis(fam, A, scale=None):
+    B = np.array(A, dtype=float) @ FRAME[fam]
+    return B if scale is None else B * np.array(scale, dtype=float)[None, :]
 
 
-def real_lattice(fam, A):
+def real_lattice(fam, A, scale=None):
     """real lattice whose reciprocal lattice (up to the factor 2 pi) has the rows A @ frame"""
-    return np.linalg.inv(recip_basis(fam, A)).T
+    return np.linalg.inv(recip_basis(fam, A, scale)).T
 
 
 def cart_from_frame(fam, Rf):
@@ -91,7 +114,7 @@ def frame_from_cart(fam, Rc):
 
 
 def elem_of(fam, s):
-    """real PointSymmetry -> (R in the frame, Inv, TR) of the specification"""
+    """real PointSymmetry -> (R in the frame, Inv, TR) of the specification (R, Inv, TR: documented attributes)"""
     return (tuple(map(tuple, frame_from_cart(fam, s.R).tolist())), bool(s.Inv), bool(s.TR))
 
 
@@ -103,9 +126,13 @@ def spec_elem(d):
     return (tuple(tuple(r) for r in d["R"]), bool(d["inv"]), bool(d["tr"]))
 
 
-def reduced_of(s, B):
-    """the matrix W of the specification: transpose of the code's basis @ R.T @ inv(basis)"""
-    return tuple(map(tuple, rint((B @ s.R.T @ np.linalg.inv(B)).T, "rotation matrix in reduced coordinates").tolist()))
+def sign_of(e):
+    return (-1 if e[1] else 1) * (-1 if e[2] else 1)
+
+
+def reduced_vectors(s, B):
+    """the REAL transform_reduced_vector on the three basis vectors: rows = images = sign * W^T (integers on an invariant lattice)"""
+    return tuple(map(tuple, rint(s.transform_reduced_vector(np.eye(3), B), "transform_reduced_vector(eye, recip_lattice)").tolist()))
 
 
 _EXTRA = {}
@@ -129,21 +156,40 @@ def generator_arg(names, as_string):
     return ps.product([base_object(n) for n in names])
 
 
-def build_group(fam, A, gens, use_real=True):
-    """-> (PointGroup or None, raised AssertionError?)"""
+def build_group(fam, A, gens, mode="real", scale=None):
+    """-> (PointGroup or None, exception or None).  mode: 'real' (real_lattice given: the constructor verifies the
+    lattice), 'recip' (recip_lattice given), 'none' (no lattice).  Any exception means 'rejected'."""
     ps = wb()
     with warnings.catch_warnings():
         warnings.simplefilter("ignore")
         try:
-            if use_real:
-                return ps.PointGroup(list(gens), real_lattice=real_lattice(fam, A)), False
-            return ps.PointGroup(list(gens), recip_lattice=2 * np.pi * recip_basis(fam, A)), False
-        except AssertionError:
-            return None, True
+            if mode == "real":
+                return ps.PointGroup(list(gens), real_lattice=real_lattice(fam, A, scale)), None
+            if mode == "recip":
+                return ps.PointGroup(list(gens), recip_lattice=2 * np.pi * recip_basis(fam, A, scale)), None
+            return ps.PointGroup(list(gens)), None
+        except Exception as ex:  # noqa  (class and text of the exception are not part of the property)
+            return None, ex
+
+
+def group_for_comparison(fam, A, gens):
+    """a PointGroup whose lattice is NOT verified by the constructor (for lattices that are not invariant): reciprocal
+    lattice given; if a future constructor verifies that too, fall back to no lattice + attributes set by the harness"""
+    pg, ex = build_group(fam, A, gens, "recip")
+    if pg is not None:
+        return pg
+    pg, ex = build_group(fam, A, gens, "none")
+    if pg is not None:
+        try:
+            pg.recip_lattice = 2 * np.pi * recip_basis(fam, A)
+            pg.real_lattice = real_lattice(fam, A)
+        except Exception:  # noqa
+            return None
+    return pg
 
 
 # ----------------------------------------------------------------------------------------- tensors
-def to_cart(fam, T, lead=()):
+def to_cart(fam, T):
     """spec tensor dict(rank, re, im) (frame components) -> complex Cartesian array"""
     r = T["rank"]
     t = (np.array(T["re"], dtype=float) + 1j * np.array(T["im"], dtype=float)).reshape((3,) * r)
@@ -179,21 +225,80 @@ def tens_eq(a, b):
 
 
 def transform_obj(t):
-    """name of a predefined transform or dict(factor, conj, axes) -> real Transform"""
+    """name of a predefined transform, dict(factor, conj, axes[, swap]) or a real Transform -> real Transform"""
     ps = wb()
     if isinstance(t, str):
         return getattr(ps, "transform_" + t)
+    if not isinstance(t, dict):
+        return t
+    if t.get("swap") is not None:
+        return ps.Transform(factor=t["factor"], conj=t["conj"], swap_axes=tuple(t["swap"]))
     return ps.Transform(factor=t["factor"], conj=t["conj"], transpose_axes=tuple(t["axes"]) if len(t["axes"]) else None)
 
 
+def apply_T(tr, arr):
+    """Transform.__call__ on a copy: works for an in-place implementation (the present one returns the same array) and
+    for one that returns a new array"""
+    a = np.array(arr, dtype=complex, copy=True)
+    out = tr(a)
+    return a if out is None else np.asarray(out)
+
+
+_TJ = {}
+
+
 def transform_json(t):
+    """(factor, conj, axes) of a transform BY ITS EFFECT on a probe tensor (not by its attributes): axes = the
+    transpose_axes on the last len(axes) tensor axes that reproduces it, leading fixed axes stripped"""
+    key = repr(t) if isinstance(t, (str, dict)) else None
+    if key in _TJ:
+        return dict(_TJ[key])
     tr = transform_obj(t)
-    return dict(factor=int(tr.factor), conj=bool(tr.conj), axes=[int(a) for a in (tr.transpose_axes or ())])
+    n = 2 * 27
+    X = (np.arange(1, n + 1) + 1j * (100 + np.arange(1, n + 1))).reshape(2, 3, 3, 3)
+    Y = apply_T(tr, X)
+    if Y.shape != X.shape:
+        raise MachineryError(f"transform {t} changes the shape of a (2,3,3,3) array")
+    factor = 1 if Y[0, 0, 1, 2].real > 0 else -1
+    conj = bool((Y[0, 0, 1, 2].imag > 0) != (factor > 0))
+    src = np.unravel_index(int(round(abs(Y[0, 0, 1, 2].real))) - 1, X.shape)
+    if src[0] != 0 or sorted(src[1:]) != [0, 1, 2]:
+        raise MachineryError(f"transform {t} is not a permutation of the tensor axes")
+    axes = [list(src[1:]).index(m) for m in range(3)]
+    Z = X.transpose((0,) + tuple(1 + a for a in axes))
+    Z = factor * (Z.conj() if conj else Z)
+    if not np.array_equal(Z, Y):
+        raise MachineryError(f"transform {t} is not a signed (conjugating) permutation of the tensor axes")
+    while axes and axes[0] == 0:
+        axes = [a - 1 for a in axes[1:]]
+    res = dict(factor=int(factor), conj=conj, axes=[int(a) for a in axes])
+    if key is not None:
+        _TJ[key] = dict(res)
+    return res
+
+
+_MR = {}
+
+
+def min_rank(t):
+    """smallest tensor rank (array without leading axes) the transform can be applied to, found by trying"""
+    key = repr(t)
+    if key not in _MR:
+        tr = transform_obj(t)
+        _MR[key] = 9
+        for r in range(4):
+            try:
+                apply_T(tr, np.zeros((3,) * r, dtype=complex))
+                _MR[key] = r
+                break
+            except Exception:  # noqa
+                pass
+    return _MR[key]
 
 
 def call_act(fam, sym, T, tTR, tInv):
     """transform_tensor on the specification's tensor; a rank-0 tensor is passed with one leading axis of length 1
-    (as all rank-0 results of wannierberri are), the 0-dimensional form is probed separately"""
+    (as all rank-0 results of wannierberri are), the 0-dimensional form is a separate positive case"""
     data = to_cart(fam, T)
     if T["rank"] == 0:
         data = data.reshape((1,))
@@ -210,6 +315,23 @@ def call_symmetrize(fam, pg, T, tTR, tInv):
     return from_cart(fam, S[0] if T["rank"] == 0 else S, T["rank"])
 
 
+def energy_result(fam, T, tTR, tInv):
+    """EnergyResult with two energies carrying T and 3 T (None if the result class cannot be built this way any more)"""
+    try:
+        from wannierberri.result import EnergyResult
+        data = np.stack([to_cart(fam, T), 3 * to_cart(fam, T)])
+        return EnergyResult(np.array([0.0, 1.0]), data, transformTR=transform_obj(tTR), transformInv=transform_obj(tInv), rank=T["rank"], save_mode="")
+    except Exception:  # noqa
+        return None
+
+
+def call_symmetrize_result(fam, pg, res, rank):
+    """PointGroup.symmetrize(EnergyResult) times the group size -> (tensor of the first energy, consistent second energy?)"""
+    S = pg.symmetrize(res)
+    d = np.asarray(S.data) * pg.size
+    return from_cart(fam, d[0], rank), bool(np.allclose(d[1], 3 * d[0], rtol=0, atol=1e-9))
+
+
 # ----------------------------------------------------------------------------------------- fast dump reader
 def _pyval(txt):
     s = txt.replace("<<>>", "()").replace("<<", "(").replace(">>", ",)")
@@ -220,7 +342,6 @@ def _pyval(txt):
 
 
 def dump_states(st):
-    import os
     p = st.get("dump_path")
     if not p or not os.path.exists(p):
         raise MachineryError(f"no state dump produced ({st.get('meta')})")
@@ -268,12 +389,21 @@ KPTS_MORE = [(4, (2, 0, 0)), (4, (2, 2, 0)), (4, (1, 1, 1)), (4, (3, 1, 2)), (6,
 
 
 def run_model(module, cfg, name, workers, dump=True, timeout=3000):
-    st = tlc.run_tlc(module, cfg, name, workers=workers, dump=dump, timeout=timeout)
+    st = tlc.run_tlc(module, cfg, name + TAG, workers=workers, dump=dump, timeout=timeout)
     if st.get("timeout"):
         raise MachineryError(f"TLC timed out on {name}")
     if st.get("error") and not st.get("violation"):
         raise MachineryError(f"TLC error on {name}: {st['error'][:800]}")
     return st
+
+
+def star_matches(gotst, expst, images, N):
+    """the property: each distinct image (modulo the reciprocal lattice) exactly once, nothing but images.
+    -> (ok, same order and representatives as the specification's algorithm?)"""
+    gm = [tuple(x % N for x in v) for v in gotst]
+    em = {tuple(x % N for x in v) for v in expst}
+    ok = len(gotst) == len(expst) and len(set(gm)) == len(gm) and set(gm) == em and all(tuple(v) in images for v in gotst)
+    return ok, list(map(tuple, gotst)) == list(map(tuple, expst))
 
 
 # ----------------------------------------------------------------------------------------- replay of the TLC states
@@ -283,8 +413,13 @@ class Replayer:
         self.rng = rng
         self.groups = {}
         self.count = dict(group=0, group_asym=0, tensor=0, tensor_invalid_pair=0, star=0, grid=0, dict=0, products=0, act=0,
-                          lead_axis=0, sizes={})
-        self.maxdev = 0.0
+                          lead_axis=0, reduced_vectors=0, twin_lattices=0, symmetrize_result=0, dup_generator_lists=0, sizes={})
+        self.info = dict(element_order_differs=0, star_order_or_representative_differs=0)
+        self.skipped = {}
+        self.samples = {}
+
+    def skip(self, what, why):
+        self.skipped.setdefault(what, str(why)[:200])
 
     def group(self, lat, gens):
         key = (lat, gens)
@@ -292,15 +427,67 @@ class Replayer:
             fam, A = LATS[lat]
             as_string = zlib.crc32(repr(key).encode()) % 2 == 0
             args = [generator_arg(n, as_string) for n in gens]
-            pg, raised = build_group(fam, A, args, use_real=True)
+            pg, ex = build_group(fam, A, args, "real")
             pg2 = None
-            if raised:
-                pg2, _ = build_group(fam, A, args, use_real=False)
-            self.groups[key] = (pg, raised, pg2)
+            if pg is None:
+                pg2 = group_for_comparison(fam, A, args)
+            self.groups[key] = (pg, ex, pg2, args)
         return self.groups[key]
 
     def viol(self, key, **detail):
         self.rep.violation(key, detail)
+
+    def lattice_dependent(self, pg, fam, G, perm, out, info, suffix=""):
+        """check_basis_symmetry, symmetric_grid, transform_reduced_vector, star on the lattice of pg"""
+        rep = self.rep
+        try:
+            for basis, name, exp in ((pg.real_lattice, "real", out["symmreal"]), (pg.recip_lattice, "recip", out["symm"])):
+                r = bool(pg.check_basis_symmetry(basis))
+                if r != exp:
+                    self.viol("check_basis_symmetry:" + name + suffix, **info, expected=exp, got=r)
+            nkmax = round(len(out["grids"]) ** (1 / 3))
+            for q, nk in enumerate(itertools.product(range(1, nkmax + 1), repeat=3)):
+                if suffix and not out["symm"]:
+                    break
+                r = bool(pg.symmetric_grid(list(nk)))
+                self.count["grid"] += 1
+                if r != out["grids"][q]:
+                    self.viol("symmetric_grid" + suffix, **info, nk=nk, expected=out["grids"][q], got=r)
+            if not out["symm"]:
+                return
+            B = pg.recip_lattice
+            expW = [tuple(tuple(r) for r in w) for w in out["W"]]
+            try:
+                for a, x in enumerate(pg.symmetries):
+                    M = reduced_vectors(x, B)
+                    self.count["reduced_vectors"] += 1
+                    W, sg = expW[perm[a]], sign_of(G[perm[a]])
+                    if M != tuple(tuple(sg * W[j][i] for j in range(3)) for i in range(3)):
+                        self.viol("transform_reduced_vector" + suffix, **info, element=elem_json(G[perm[a]]),
+                                  expected_rows=[[sg * W[j][i] for j in range(3)] for i in range(3)], got_rows=M)
+                        break
+            except NonIntegral as ex:
+                self.viol("transform_reduced_vector:non_integral" + suffix, **info, detail=str(ex))
+            kpts = KPTS_FEW + (KPTS_MORE if len(out["stars"]) > len(KPTS_FEW) else [])
+            for q, (N, k) in enumerate(kpts):
+                st = pg.star(np.array(k, dtype=float) / N)
+                self.count["star"] += 1
+                try:
+                    gotst = [tuple(int(x) for x in v) for v in rint(np.asarray(st) * N, "star (numerators)")]
+                except NonIntegral as ex:
+                    self.viol("star:non_integral" + suffix, **info, k=k, N=N, detail=str(ex))
+                    continue
+                expst = [tuple(v) for v in out["stars"][q]]
+                images = {tuple(sign_of(G[n]) * sum(expW[n][i][j] * k[j] for j in range(3)) for i in range(3)) for n in range(len(G))}
+                ok, same = star_matches(gotst, expst, images, N)
+                if not ok:
+                    self.viol("star" + suffix, **info, k=k, N=N, images_each_once_expected=expst, got=gotst)
+                elif not same:
+                    self.info["star_order_or_representative_differs"] += 1
+        except NonIntegral:
+            raise
+        except Exception as ex:  # noqa   a public method of the property raised on a valid input
+            self.viol(f"raises:PointGroup.lattice_methods{suffix}:{type(ex).__name__}", **info, error=f"{type(ex).__name__}: {ex}")
 
     def replay_group(self, s):
         rep = self.rep
@@ -310,36 +497,53 @@ class Replayer:
         G = [spec_elem(e) for e in s["G"]]
         out = s["out"]
         info = dict(lattice=lat, generators=["*".join(g) for g in gens])
-        pg, raised, pg_recip = self.group(lat, gens)
+        pg, ex, pg_recip, args = self.group(lat, gens)
+        raised = pg is None
         rep.case(("group", lat, gens), nontrivial=len(G) > 1)
         self.count["group"] += 1
         self.count["sizes"][len(G)] = self.count["sizes"].get(len(G), 0) + 1
-        # lattice invariance decision: the constructor asserts it when a real lattice is given
+        if len(set(gens)) < len(gens):
+            self.count["dup_generator_lists"] += 1
+        # lattice invariance decision: the constructor rejects the lattice (any exception) when a real lattice is given
         if raised != (not out["symm"]):
-            self.viol("PointGroup.__init__:basis_symmetry_assert", **info, spec_lattice_symmetric=out["symm"], code_raised=raised)
+            self.viol("PointGroup.__init__:basis_symmetry_check" if not raised else f"raises:PointGroup.__init__:{type(ex).__name__}",
+                      **info, spec_lattice_symmetric=out["symm"], code_raised=raised, error=str(ex)[:300] if ex else None)
             return
         if raised:
             self.count["group_asym"] += 1
             pg = pg_recip
+            if pg is None:
+                self.skip("groups_on_non_invariant_lattices", "PointGroup cannot be built without a lattice check any more")
+                return
         try:
             got = [elem_of(fam, x) for x in pg.symmetries]
-        except NonIntegral as ex:
-            self.viol("PointGroup.symmetries:non_integral", **info, detail=str(ex))
+        except NonIntegral as ex2:
+            self.viol("PointGroup.symmetries:non_integral", **info, detail=str(ex2))
+            return
+        if len(got) != len(G) or len(set(got)) != len(got) or set(got) != set(G):
+            self.viol("PointGroup.symmetries", **info, expected_set=[elem_json(e) for e in G], got=[elem_json(e) for e in got])
             return
         if got != G:
-            self.viol("PointGroup.symmetries", **info, expected=[elem_json(e) for e in G], got=[elem_json(e) for e in got])
-            return
-        for basis, name, exp in ((pg.real_lattice, "real", out["symmreal"]), (pg.recip_lattice, "recip", out["symm"])):
-            r = bool(pg.check_basis_symmetry(basis))
-            if r != exp:
-                self.viol("check_basis_symmetry:" + name, **info, expected=exp, got=r)
-        # symmetric_grid
-        nkmax = round(len(out["grids"]) ** (1 / 3))
-        for q, nk in enumerate(itertools.product(range(1, nkmax + 1), repeat=3)):
-            r = bool(pg.symmetric_grid(list(nk)))
-            self.count["grid"] += 1
-            if r != out["grids"][q]:
-                self.viol("symmetric_grid", **info, nk=nk, expected=out["grids"][q], got=r)
+            self.info["element_order_differs"] += 1
+        idx = {e: n for n, e in enumerate(G)}
+        perm = [idx[e] for e in got]
+        self.lattice_dependent(pg, fam, G, perm, out, info)
+        # a lattice with irrational axis ratios that the same group leaves invariant: the same answers
+        if lat in TWIN and out["symm"]:
+            pgt, ext = build_group(fam, A, args, "real", scale=TWIN[lat])
+            self.count["twin_lattices"] += 1
+            if pgt is None:
+                self.viol("PointGroup.__init__:basis_symmetry_check:irrational_axis_ratio", **info, scale_of_cartesian_components=TWIN[lat],
+                          error=f"{type(ext).__name__}: {ext}"[:300])
+            else:
+                try:
+                    gott = [elem_of(fam, x) for x in pgt.symmetries]
+                    if len(gott) != len(G) or set(gott) != set(G):
+                        self.viol("PointGroup.symmetries:irrational_axis_ratio", **info, got=[elem_json(e) for e in gott])
+                    else:
+                        self.lattice_dependent(pgt, fam, G, [idx[e] for e in gott], out, dict(info, scale_of_cartesian_components=TWIN[lat]), ":irrational_axis_ratio")
+                except NonIntegral as ex2:
+                    self.viol("PointGroup.symmetries:non_integral", **info, detail=str(ex2))
         # pairwise products (all pairs up to 24 elements, seeded sample of 600 pairs beyond)
         n = len(G)
         pairs = list(itertools.product(range(n), repeat=2))
@@ -348,60 +552,42 @@ class Replayer:
         for a, b in pairs:
             p = elem_of(fam, pg.symmetries[a] * pg.symmetries[b])
             self.count["products"] += 1
-            if p != G[out["tab"][a][b] - 1]:
-                self.viol("PointSymmetry.__mul__", **info, a=elem_json(G[a]), b=elem_json(G[b]), expected=elem_json(G[out["tab"][a][b] - 1]), got=elem_json(p))
+            e = G[out["tab"][perm[a]][perm[b]] - 1]
+            if p != e:
+                self.viol("PointSymmetry.__mul__", **info, a=elem_json(got[a]), b=elem_json(got[b]), expected=elem_json(e), got=elem_json(p))
                 break
         if not out["symm"]:
             return
-        B = pg.recip_lattice
-        try:
-            W = [reduced_of(x, B) for x in pg.symmetries]
-        except NonIntegral as ex:
-            self.viol("transform_reduced_vector:non_integral", **info, detail=str(ex))
-            return
-        expW = [tuple(tuple(r) for r in w) for w in out["W"]]
-        if W != expW:
-            self.viol("transform_reduced_vector:matrix", **info, expected=expW, got=W)
-        # stars
-        kpts = KPTS_FEW + (KPTS_MORE if len(out["stars"]) > len(KPTS_FEW) else [])
-        for q, (N, k) in enumerate(kpts):
-            st = pg.star(np.array(k, dtype=float) / N)
-            self.count["star"] += 1
-            try:
-                gotst = [tuple(int(x) for x in v) for v in rint(st * N, "star (numerators)")]
-            except NonIntegral as ex:
-                self.viol("star:non_integral", **info, k=k, N=N, detail=str(ex))
-                continue
-            expst = [tuple(v) for v in out["stars"][q]]
-            if gotst != expst:
-                self.viol("star", **info, k=k, N=N, expected=expst, got=gotst)
-        # as_dict / PointGroup(dictionary=...)
+        # as_dict / PointGroup(dictionary=...): the same set of elements on the same lattice
         with warnings.catch_warnings():
             warnings.simplefilter("ignore")
-            d = pg.as_dict()
             try:
-                pgd = ps.PointGroup(dictionary=d)
+                pgd = ps.PointGroup(dictionary=pg.as_dict())
                 gotd = [elem_of(fam, x) for x in pgd.symmetries]
-            except Exception as ex:  # noqa
-                gotd = f"{type(ex).__name__}: {ex}"
+            except NonIntegral:
+                raise
+            except Exception as ex2:  # noqa
+                gotd = f"{type(ex2).__name__}: {ex2}"
         self.count["dict"] += 1
-        if gotd != [spec_elem(e) for e in out["dict"]]:
-            self.viol("PointGroup.as_dict:round_trip", **info, expected=[elem_json(spec_elem(e)) for e in out["dict"]],
+        if isinstance(gotd, str) or len(gotd) != len(G) or set(gotd) != set(G):
+            self.viol("PointGroup.as_dict:round_trip", **info, expected_set=[elem_json(e) for e in G],
                       got=gotd if isinstance(gotd, str) else [elem_json(e) for e in gotd])
         elif not np.allclose(pgd.real_lattice, pg.real_lattice, rtol=0, atol=1e-12):
             self.viol("PointGroup.as_dict:lattice", **info, expected=pg.real_lattice.tolist(), got=pgd.real_lattice.tolist())
-        if len(G) >= 8 and len(gens) == 2 and self.count.setdefault("group_samples", 0) < 2:
-            self.count["group_samples"] += 1
-            rep.sample(dict(fn="PointGroup", **info, size=len(G), elements_3_to_5=[elem_json(e) for e in G[2:5]],
-                            star_of=dict(N=kpts[3][0], k=kpts[3][1]), star=[list(v) for v in out["stars"][3]]))
+        if len(G) >= 8 and len(gens) == 2:
+            k3 = (KPTS_FEW[3][0], KPTS_FEW[3][1])
+            self.samples.setdefault("group", {})[(lat, gens)] = dict(
+                fn="PointGroup", **info, size=len(G), three_elements=[elem_json(e) for e in sorted(G)[:3]],
+                star_of=dict(N=k3[0], k=k3[1]), star_as_set=sorted(list(v) for v in out["stars"][3]))
 
     def replay_tensor(self, s):
         rep = self.rep
         lat, gens = s["lat"], tuple(tuple(g) for g in s["gens"])
         fam, A = LATS[lat]
-        pg, raised, _ = self.group(lat, gens)
+        pg = self.group(lat, gens)[0]
         if pg is None:
             raise MachineryError("tensor state on a lattice that is not invariant")
+        G = [spec_elem(e) for e in s["G"]]
         inp, out = s["inp"], s["out"]
         T = dict(rank=inp["rank"], re=list(inp["T"]["re"]), im=list(inp["T"]["im"]))
         tTR, tInv = inp["tTR"], inp["tInv"]
@@ -413,39 +599,64 @@ class Replayer:
         if not valid:
             self.count["tensor_invalid_pair"] += 1
         try:
+            got = [elem_of(fam, x) for x in pg.symmetries]
+            if set(got) != set(G) or len(got) != len(G):
+                return              # reported by replay_group of the same generator list
+            idx = {e: n for n, e in enumerate(G)}
+            perm = [idx[e] for e in got]
             data0 = to_cart(fam, T).reshape((1,) + (3,) * T["rank"])       # one leading axis (see call_act)
             oTR, oInv = transform_obj(tTR), transform_obj(tInv)
-            for n, sym in enumerate(pg.symmetries):
-                got = from_cart(fam, sym.transform_tensor(data0, T["rank"], oTR, oInv)[0], T["rank"])
+            for a, sym in enumerate(pg.symmetries):
+                gt = from_cart(fam, sym.transform_tensor(data0, T["rank"], oTR, oInv)[0], T["rank"])
                 self.count["act"] += 1
-                exp = dict(rank=T["rank"], re=list(out["acted"][n]["re"]), im=list(out["acted"][n]["im"]))
-                if not tens_eq(got, exp):
-                    self.viol("transform_tensor", **info, element=elem_json(elem_of(fam, sym)), expected=exp, got=got)
+                exp = dict(rank=T["rank"], re=list(out["acted"][perm[a]]["re"]), im=list(out["acted"][perm[a]]["im"]))
+                if not tens_eq(gt, exp):
+                    self.viol("transform_tensor", **info, element=elem_json(got[a]), expected=exp, got=gt)
                     return
             # leading (spectator) axes: rank < dim
-            n = zlib.crc32(repr(key).encode()) % len(pg.symmetries)
+            a = zlib.crc32(repr(key).encode()) % len(pg.symmetries)
             data = np.stack([to_cart(fam, T), 3 * to_cart(fam, T)])      # shape (2, 3, ..., 3), rank < dim
-            o = pg.symmetries[n].transform_tensor(data, T["rank"], transform_obj(tTR), transform_obj(tInv))
-            exp = dict(rank=T["rank"], re=list(out["acted"][n]["re"]), im=list(out["acted"][n]["im"]))
+            o = pg.symmetries[a].transform_tensor(data, T["rank"], transform_obj(tTR), transform_obj(tInv))
+            exp = dict(rank=T["rank"], re=list(out["acted"][perm[a]]["re"]), im=list(out["acted"][perm[a]]["im"]))
             self.count["lead_axis"] += 1
             if not (tens_eq(from_cart(fam, o[0], T["rank"]), exp) and np.allclose(o[1], 3 * o[0], rtol=0, atol=1e-9)):
-                self.viol("transform_tensor:leading_axes", **info, element=elem_json(elem_of(fam, pg.symmetries[n])), expected=exp,
-                          got=from_cart(fam, o[0], T["rank"]))
+                self.viol("transform_tensor:leading_axes", **info, element=elem_json(got[a]), expected=exp, got=from_cart(fam, o[0], T["rank"]))
             gotS = call_symmetrize(fam, pg, T, tTR, tInv)
             expS = dict(rank=T["rank"], re=list(out["sym"]["re"]), im=list(out["sym"]["im"]))
             if not tens_eq(gotS, expS):
                 self.viol("symmetrize_tensor", **info, expected_times_size=expS, got_times_size=gotS)
+            # PointGroup.symmetrize(result): the same projection through Result.transform
+            res = energy_result(fam, T, tTR, tInv)
+            if res is None:
+                self.skip("PointGroup.symmetrize(EnergyResult)", "EnergyResult(Energies, data, transformTR=, transformInv=, rank=, save_mode=) cannot be built")
+            else:
+                gotR, lin = call_symmetrize_result(fam, pg, res, T["rank"])
+                self.count["symmetrize_result"] += 1
+                if not tens_eq(gotR, expS) or not lin:
+                    self.viol("PointGroup.symmetrize:EnergyResult", **info, expected_times_size=expS, got_times_size=gotR, second_energy_is_3x_first=lin)
         except NonIntegral as ex:
             self.viol("transform_tensor:non_integral", **info, detail=str(ex))
-        if len(pg.symmetries) >= 8 and T["rank"] == 2 and self.count.setdefault("tensor_samples", 0) < 2:
-            self.count["tensor_samples"] += 1
-            rep.sample(dict(fn="symmetrize_tensor", **{k: v for k, v in info.items() if k != "T"}, T_re=T["re"][:9], sym_times_size_re=list(out["sym"]["re"])[:9]))
+        except MachineryError:
+            raise
+        except Exception as ex:  # noqa   the action / projection raised on a valid tensor
+            self.viol(f"raises:transform_tensor_or_symmetrize:{type(ex).__name__}", **info, error=f"{type(ex).__name__}: {ex}"[:400])
+        if len(pg.symmetries) >= 8 and T["rank"] == 2:
+            self.samples.setdefault("tensor", {})[key[1:6]] = dict(
+                fn="symmetrize_tensor", **{k: v for k, v in info.items() if k != "T"}, T_re=T["re"][:9], sym_times_size_re=list(out["sym"]["re"])[:9])
+
+    def emit_samples(self):
+        for kind in ("group", "tensor"):
+            for k in sorted(self.samples.get(kind, {}), key=repr)[:2]:
+                self.rep.sample(self.samples[kind][k])
 
 
 # ----------------------------------------------------------------------------------------- transforms
 EXTRA_TRANSFORMS = dict(cyc_120=dict(factor=1, conj=False, axes=(1, 2, 0)), cyc_201=dict(factor=-1, conj=False, axes=(2, 0, 1)),
                         rev_210=dict(factor=1, conj=True, axes=(2, 1, 0)), conj=dict(factor=1, conj=True, axes=()),
-                        conj_trans=dict(factor=-1, conj=True, axes=(1, 0)))
+                        conj_trans=dict(factor=-1, conj=True, axes=(1, 0)),
+                        # the same kind of permutation given through swap_axes (numpy axes of the array)
+                        swap_12=dict(factor=1, conj=False, axes=(1, 0), swap=(-1, -2)),
+                        swap_13c=dict(factor=-1, conj=True, axes=(2, 1, 0), swap=(-1, -3)))
 
 
 def generic_tensor(r, v):
@@ -459,9 +670,8 @@ def any_transform(name):
 
 
 def apply_transform(t, T):
-    arr = np.array(to_cart("cub", T)).reshape((1,) + (3,) * T["rank"])      # one leading axis (0-dimensional arrays: see rank0_scalar)
-    transform_obj(t)(arr)
-    return from_cart("cub", arr[0], T["rank"])
+    arr = np.array(to_cart("cub", T)).reshape((1,) + (3,) * T["rank"])      # one leading axis
+    return from_cart("cub", apply_T(transform_obj(t), arr)[0], T["rank"])
 
 
 def replay_transforms(rep, st):
@@ -476,39 +686,45 @@ def replay_transforms(rep, st):
         rep.case(("transform", r, t, u))
         T0 = generic_tensor(r, 1)
         info = dict(rank=r, t=t, u=u)
-        g1 = apply_transform(any_transform(t), T0)
-        e1 = dict(rank=r, re=list(out["t_T"]["re"]), im=list(out["t_T"]["im"]))
-        if not tens_eq(g1, e1):
-            rep.violation("Transform.__call__", dict(info, T=T0, expected=e1, got=g1))
+        try:
+            g1 = apply_transform(any_transform(t), T0)
+            e1 = dict(rank=r, re=list(out["t_T"]["re"]), im=list(out["t_T"]["im"]))
+            if not tens_eq(g1, e1):
+                rep.violation("Transform.__call__", dict(info, T=T0, expected=e1, got=g1))
+                continue
+            g2 = apply_transform(any_transform(u), g1)
+            e2 = dict(rank=r, re=list(out["u_t_T"]["re"]), im=list(out["u_t_T"]["im"]))
+            if not tens_eq(g2, e2):
+                rep.violation("Transform.__call__:composition", dict(info, T=T0, expected=e2, got=g2))
+            # involution / commutation as decided by the specification, observed on the real objects: the positive direction on
+            # the generic tensor (exact equality required), the negative one on a tensor whose components are pairwise
+            # distinct in absolute value (a signed/conjugating permutation fixes it only if it is the identity map)
+            D = dict(rank=r, re=list(range(1, 3 ** r + 1)), im=list(range(101, 3 ** r + 101)))
+            tt, uu = any_transform(t), any_transform(u)
+            if out["involution"] and not tens_eq(apply_transform(tt, g1), T0):
+                rep.violation("Transform:involution", dict(info, spec_says_involution=True, T=T0, t_t_T=apply_transform(tt, g1)))
+            if not out["involution"] and tens_eq(apply_transform(tt, apply_transform(tt, D)), D):
+                rep.violation("Transform:involution", dict(info, spec_says_involution=False, T=D))
+            ab_, ba_ = apply_transform(tt, apply_transform(uu, D)), apply_transform(uu, apply_transform(tt, D))
+            if out["commute"] != tens_eq(ab_, ba_):
+                rep.violation("Transform:commute", dict(info, spec_says_commute=out["commute"], T=D, t_u_T=ab_, u_t_T=ba_))
+        except (NonIntegral, MachineryError):
+            raise
+        except Exception as ex:  # noqa
+            rep.violation(f"raises:Transform.__call__:{type(ex).__name__}", dict(info, error=f"{type(ex).__name__}: {ex}"[:300]))
             continue
-        g2 = apply_transform(any_transform(u), g1)
-        e2 = dict(rank=r, re=list(out["u_t_T"]["re"]), im=list(out["u_t_T"]["im"]))
-        if not tens_eq(g2, e2):
-            rep.violation("Transform.__call__:composition", dict(info, T=T0, expected=e2, got=g2))
-        # involution / commutation as decided by the specification, observed on the real objects: the positive direction on
-        # the generic tensor (exact equality required), the negative one on a tensor whose components are pairwise
-        # distinct in absolute value (a signed/conjugating permutation fixes it only if it is the identity map)
-        D = dict(rank=r, re=list(range(1, 3 ** r + 1)), im=list(range(101, 3 ** r + 101)))
-        tt, uu = any_transform(t), any_transform(u)
-        if out["involution"] and not tens_eq(apply_transform(tt, g1), T0):
-            rep.violation("Transform:involution", dict(info, spec_says_involution=True, T=T0, t_t_T=apply_transform(tt, g1)))
-        if not out["involution"] and tens_eq(apply_transform(tt, apply_transform(tt, D)), D):
-            rep.violation("Transform:involution", dict(info, spec_says_involution=False, T=D))
-        ab_, ba_ = apply_transform(tt, apply_transform(uu, D)), apply_transform(uu, apply_transform(tt, D))
-        if out["commute"] != tens_eq(ab_, ba_):
-            rep.violation("Transform:commute", dict(info, spec_says_commute=out["commute"], T=D, t_u_T=ab_, u_t_T=ba_))
-        # TransformProduct
+        # TransformProduct (any exception = not defined)
         err = None
         try:
             tp = ps.TransformProduct([transform_obj(any_transform(t)), transform_obj(any_transform(u))])
-        except (ValueError, NotImplementedError) as ex:
+        except Exception as ex:  # noqa
             err = type(ex).__name__
         if (err is None) != out["product_defined"]:
             rep.violation("TransformProduct:defined", dict(info, spec_defined=out["product_defined"], code_error=err))
         elif err is None:
             nprod += 1
-            got = dict(factor=int(tp.factor), conj=bool(tp.conj), axes=tuple(tp.transpose_axes or ()))
-            exp = dict(factor=out["product"]["factor"], conj=out["product"]["conj"], axes=tuple(out["product"]["axes"]))
+            got = transform_json(tp)                     # by effect
+            exp = dict(factor=out["product"]["factor"], conj=out["product"]["conj"], axes=list(out["product"]["axes"]))
             if got != exp:
                 rep.violation("TransformProduct", dict(info, expected=exp, got=got))
             # the product rule on the real objects: tp(A x B) = t(A) x u(B)
@@ -516,11 +732,10 @@ def replay_transforms(rep, st):
                 Aa, Bb = generic_tensor(ra, 1), generic_tensor(r - ra, 2)
                 x = np.array(to_cart("cub", Aa)).reshape((1,) + (3,) * ra)
                 y = np.array(to_cart("cub", Bb)).reshape((1,) + (3,) * (r - ra))
-                ab = np.multiply.outer(x[0], y[0])[None]
-                tp(ab)
-                transform_obj(any_transform(t))(x)
-                transform_obj(any_transform(u))(y)
-                if not np.array_equal(ab[0], np.multiply.outer(x[0], y[0])):
+                ab = apply_T(tp, np.multiply.outer(x[0], y[0])[None])
+                x2 = apply_T(transform_obj(any_transform(t)), x)
+                y2 = apply_T(transform_obj(any_transform(u)), y)
+                if not np.array_equal(ab[0], np.multiply.outer(x2[0], y2[0])):
                     rep.violation("TransformProduct:product_rule", dict(info, rank_A=ra, rank_B=r - ra))
     if 2 * n != st["distinct"] or nprod == 0:
         raise MachineryError(f"transform states: dump {n}, TLC {st['distinct']}, products {nprod}")
@@ -558,8 +773,8 @@ def holohedry(fam):
     return L
 
 
-def predicted_size(mats_tr):
-    """size of the group generated by improper matrices with TR flags (harness-side, to keep the TLC cost bounded)"""
+def predicted_size(mats_tr, cap=96):
+    """size of the group generated by improper matrices with TR flags (harness-side, to keep the cost bounded)"""
     L = list(dict.fromkeys(mats_tr))
     grew = True
     while grew:
@@ -570,7 +785,7 @@ def predicted_size(mats_tr):
                 if c not in L:
                     L.append(c)
                     grew = True
-                    if len(L) > 96:
+                    if len(L) > cap:
                         return len(L)
     return len(L)
 
@@ -586,7 +801,109 @@ def random_lattice(rng, fam):
             return A
 
 
-def make_records(rep, rng, nrec):
+# Rotation(n, axis) / Mirror(axis): (family, n, axis in integer frame coordinates, mirror?, name in the spec's table or "")
+ROT_CASES = [("cub", 2, (1, 0, 0), False, "C2x"), ("cub", 2, (0, 1, 0), False, "C2y"), ("cub", 2, (0, 0, 1), False, "C2z"),
+             ("cub", 4, (1, 0, 0), False, "C4x"), ("cub", 4, (0, 1, 0), False, "C4y"), ("cub", 4, (0, 0, 1), False, "C4z"),
+             ("cub", 3, (1, 1, 1), False, "C3d"), ("cub", 2, (1, 1, 0), False, "C2d"),
+             ("cub", 2, (1, 0, 0), True, "Mx"), ("cub", 2, (0, 1, 0), True, "My"), ("cub", 2, (0, 0, 1), True, "Mz"),
+             ("cub", -4, (0, 0, 1), False, ""), ("cub", 3, (1, -1, 1), False, ""), ("cub", -3, (1, 1, 1), False, ""),
+             ("cub", 3, (-1, -1, -1), False, ""), ("cub", 2, (1, -1, 0), False, ""), ("cub", 2, (0, 1, 1), False, ""),
+             ("cub", 1, (0, 0, 1), False, ""), ("cub", -1, (1, 0, 0), False, ""), ("cub", -2, (1, 0, 1), False, ""),
+             ("cub", 4, (0, 0, -2), False, ""), ("cub", -4, (0, 3, 0), False, ""), ("cub", 3, (-1, 1, 1), False, ""),
+             ("cub", 2, (1, 1, 0), True, ""), ("cub", 2, (1, -1, 0), True, ""), ("cub", 2, (0, 1, 1), True, ""),
+             ("hex", 6, (0, 0, 1), False, "C6z"), ("hex", 3, (0, 0, 1), False, "C3z"), ("hex", 2, (0, 0, 1), False, "C2z"),
+             ("hex", 2, (2, -1, 0), False, "C2x"), ("hex", 2, (0, 1, 0), False, "C2y"),
+             ("hex", 2, (2, -1, 0), True, "Mx"), ("hex", 2, (0, 1, 0), True, "My"), ("hex", 2, (0, 0, 1), True, "Mz"),
+             ("hex", -6, (0, 0, 1), False, ""), ("hex", -3, (0, 0, 2), False, ""), ("hex", 6, (0, 0, -1), False, ""),
+             ("hex", 2, (1, 0, 0), False, ""), ("hex", 2, (1, 1, 0), False, ""), ("hex", 2, (1, -1, 0), False, ""),
+             ("hex", 2, (1, -2, 0), False, ""), ("hex", 2, (1, 1, 0), True, ""), ("hex", 2, (1, 0, 0), True, "")]
+
+# structures whose point group is built by PointGroup(spacegroup=irrep SpaceGroup): (lattice name, positions, types, magnetic moments)
+SG_CASES = [("tet", [[0, 0, 0], [0, 0, 0.3]], [1, 2], None),
+            ("hex", [[0, 0, 0], [1 / 3, 2 / 3, 0.3]], [1, 2], None),
+            ("ort", [[0, 0, 0], [0.5, 0, 0]], [1, 1], [[0, 0, 1.0], [0, 0, -1.0]]),
+            ("sc", [[0, 0, 0], [0.25, 0.25, 0.25]], [1, 2], None)]
+
+
+def rot_records(rep, which):
+    ps = wb()
+    recs = []
+    for fam, n, c, mirror, name in which:
+        axis = (np.array(c, dtype=float) @ FRAME[fam]).tolist()
+        info = dict(call=f"Mirror({axis})" if mirror else f"Rotation({n}, {axis})", frame=fam, axis_frame_coordinates=list(c))
+        try:
+            obj = ps.Mirror(axis) if mirror else ps.Rotation(n, axis)
+            recs.append(dict(fn="rot", fam=fam, n=n, c=list(c), mirror=mirror, name=name, out=elem_json(elem_of(fam, obj))))
+            rep.case(("rot", fam, n, c, mirror))
+        except NonIntegral as ex:
+            rep.violation("Rotation:non_integral", dict(info, detail=str(ex)))
+        except Exception as ex:  # noqa
+            rep.violation(f"raises:Rotation:{type(ex).__name__}", dict(info, error=f"{type(ex).__name__}: {ex}"[:300]))
+    return recs
+
+
+def group_record(fam, A, genj, pg, site):
+    """record of a finished group (elements in the code's order, lattice verdicts, transform_reduced_vector of the basis)"""
+    G = pg.symmetries
+    symm = bool(pg.check_basis_symmetry(pg.recip_lattice))
+    symmreal = bool(pg.check_basis_symmetry(pg.real_lattice))
+    TRV = [[list(r) for r in reduced_vectors(x, pg.recip_lattice)] for x in G] if symm else []
+    return dict(fn="group", site=site, lat=dict(fam=fam, A=[list(r) for r in A]), gens=genj, out=[elem_json(elem_of(fam, x)) for x in G],
+                symm=symm, symmreal=symmreal, TRV=TRV)
+
+
+def spacegroup_records(rep, which, skipped):
+    """PointGroup(spacegroup=...) and PointGroup(spacegroup=..., use_symmetries_index=...)"""
+    ps = wb()
+    recs = []
+    try:
+        from irrep.spacegroup import SpaceGroup
+    except Exception as ex:  # noqa
+        skipped["PointGroup(spacegroup=)"] = f"irrep not importable: {ex}"
+        return recs
+    for lat, pos, typ, mom in which:
+        fam, A = LATS[lat]
+        info = dict(lattice=lat, positions=pos, types=typ, magmom=mom)
+        try:
+            with warnings.catch_warnings():
+                warnings.simplefilter("ignore")
+                sg = SpaceGroup.from_cell(real_lattice=real_lattice(fam, A), positions=np.array(pos, dtype=float), typat=list(typ),
+                                          magmom=None if mom is None else np.array(mom, dtype=float), include_TR=True, spinor=False)
+                ops = [(frame_from_cart(fam, np.asarray(o.rotation_cart)), bool(o.time_reversal)) for o in sg.symmetries]
+        except Exception as ex:  # noqa   irrep / spglib, not the code under test
+            skipped["PointGroup(spacegroup=):" + lat] = f"{type(ex).__name__}: {ex}"[:200]
+            continue
+        nops = len(ops)
+        for sub in (None, list(range(0, nops, 3)) + [nops - 1]):
+            use = list(range(nops)) if sub is None else sorted(set(sub))
+            genj = [dict(R=[[int(x) for x in r] for r in ops[n][0]], TR=ops[n][1]) for n in use]
+            try:
+                with warnings.catch_warnings():
+                    warnings.simplefilter("ignore")
+                    pg = ps.PointGroup(spacegroup=sg) if sub is None else ps.PointGroup(spacegroup=sg, use_symmetries_index=use)
+                recs.append(group_record(fam, A, genj, pg, "PointGroup(spacegroup=)" if sub is None else "PointGroup(spacegroup=,use_symmetries_index=)"))
+                rep.case(("sgroup", lat, tuple(use)))
+            except NonIntegral as ex:
+                rep.violation("PointGroup(spacegroup=):non_integral", dict(info, detail=str(ex)))
+            except Exception as ex:  # noqa
+                rep.violation(f"raises:PointGroup(spacegroup=):{type(ex).__name__}", dict(info, use_symmetries_index=sub, error=f"{type(ex).__name__}: {ex}"[:300]))
+    return recs
+
+
+KINDS = ["group", "mul", "star", "act", "actlaw", "symm", "grid", "dict", "tprod", "symm_result", "star", "actlaw", "group", "act4"]
+
+
+def random_word(rng, objs, ps):
+    """an element of the group as a product of generators (no PointGroup needed)"""
+    g = ps.Identity
+    for _ in range(rng.randint(1, 5)):
+        g = g * rng.choice(objs)
+    return g
+
+
+def make_records(rep, rng, nrec, maxsize, skipped):
+    """seeded random calls of the real code -> records.  Groups are built only up to `maxsize` elements (the closure loop of
+    the real code is cubic in the size); products / actions use words in the generators instead."""
     ps = wb()
     recs = []
     hol = {f: holohedry(f) for f in ("cub", "hex")}
@@ -594,49 +911,56 @@ def make_records(rep, rng, nrec):
         raise MachineryError("holohedry helper wrong")
     classes = {}
     tries = 0
-    while len(recs) < nrec and tries < 50 * nrec:
+    extra = list(EXTRA_TRANSFORMS)
+    while len(recs) < nrec and tries < 60 * nrec:
+        kind = KINDS[tries % len(KINDS)]
         tries += 1
         fam = rng.choice(["cub", "cub", "hex"])
         A = random_lattice(rng, fam)
         ng = rng.choice([0, 1, 1, 2, 2, 2, 3])
         gens = [(rng.choice(hol[fam]), rng.random() < 0.35) for _ in range(ng)]
-        size = predicted_size(gens) if gens else 1
-        if size > 24 and rng.random() < (0.9 if size <= 48 else 0.97):
-            continue
-        with warnings.catch_warnings():
-            warnings.simplefilter("ignore")
-            objs = [ps.PointSymmetry(cart_from_frame(fam, R), TR) for R, TR in gens]
-        pg, raised = build_group(fam, A, objs, use_real=True)
-        pgr, _ = build_group(fam, A, objs, use_real=False)
+        if ng >= 2 and rng.random() < 0.12:
+            gens[-1] = gens[0]                       # a generator given twice
+        needs_group = kind in ("group", "star", "symm", "symm_result", "grid", "dict")
         latj = dict(fam=fam, A=[list(r) for r in A])
         genj = [dict(R=[list(r) for r in R], TR=bool(TR)) for R, TR in gens]
-        try:
-            Gj = [elem_json(elem_of(fam, s)) for s in pgr.symmetries]
-            symm = bool(pgr.check_basis_symmetry(pgr.recip_lattice))
-            symmreal = bool(pgr.check_basis_symmetry(pgr.real_lattice))
-            if raised != (not (symm and symmreal)):
-                rep.violation("PointGroup.__init__:basis_symmetry_assert", dict(lattice=latj, generators=genj, code_raised=raised,
-                                                                                 check_basis_symmetry=[symmreal, symm]))
-            W = [[list(r) for r in reduced_of(s, pgr.recip_lattice)] for s in pgr.symmetries] if symm else []
-        except NonIntegral as ex:
-            rep.violation("PointGroup.symmetries:non_integral", dict(lattice=latj, generators=genj, detail=str(ex)))
-            continue
-        kind = rng.choice(["group", "group", "mul", "star", "star", "act", "actlaw", "actlaw", "symm", "symm", "grid", "dict", "tprod"])
-        G = pgr.symmetries
-        rank = rng.choice([0, 1, 1, 2, 2, 3, 3])
-        avail = [t for t in TRANSFORM_NAMES if len(transform_json(t)["axes"]) <= rank]
-        tTR, tInv = rng.choice(avail), rng.choice(avail)
-        if rng.random() < 0.15 and rank >= 2:
-            tTR = dict(factor=rng.choice([1, -1]), conj=rng.random() < 0.5, axes=rng.choice([p for p in itertools.permutations(range(rng.choice([2, rank])))]))
+        with warnings.catch_warnings():
+            warnings.simplefilter("ignore")
+            objs = [ps.PointSymmetry(cart_from_frame(fam, R), TR) for R, TR in gens] or [ps.Identity]
+        rank = 4 if kind == "act4" else rng.choice([0, 1, 1, 2, 2, 3, 3])
+        pool_t = TRANSFORM_NAMES + extra
+        avail = [t for t in pool_t if min_rank(any_transform(t)) <= rank]
+        tTR, tInv = any_transform(rng.choice(avail)), any_transform(rng.choice(avail))
         T = dict(rank=rank, re=[rng.randint(-20, 20) for _ in range(3 ** rank)], im=[rng.randint(-9, 9) if rng.random() < 0.6 else 0 for _ in range(3 ** rank)])
         tj = dict(tTR=transform_json(tTR), tInv=transform_json(tInv))
+        info = dict(kind=kind, lattice=latj, generators=genj)
         try:
-            if kind == "group":
-                if size > 24 and sum(1 for r in recs if r["fn"] == "group" and len(r["out"]) > 24) >= max(2, nrec // 100):
+            pgr = None
+            if needs_group:
+                size = predicted_size(gens, cap=maxsize) if gens else 1
+                if size > maxsize:
                     continue
-                rec = dict(fn="group", lat=latj, gens=genj, out=Gj, W=W, symm=symm, symmreal=symmreal)
+                if kind == "group":
+                    pg, ex = build_group(fam, A, objs if gens else [], "real")
+                    pgr = pg if pg is not None else group_for_comparison(fam, A, objs if gens else [])
+                    if pgr is None:
+                        skipped["random groups on non-invariant lattices"] = "PointGroup cannot be built without a lattice check any more"
+                        continue
+                    rec = group_record(fam, A, genj, pgr, "PointGroup.__init__")
+                    if (pg is None) != (not (rec["symm"] and rec["symmreal"])):
+                        rep.violation("PointGroup.__init__:basis_symmetry_check",
+                                      dict(info, code_raised=pg is None, check_basis_symmetry=[rec["symmreal"], rec["symm"]], error=str(ex)[:300] if ex else None))
+                else:
+                    pgr = group_for_comparison(fam, A, objs if gens else [])
+                    if pgr is None:
+                        continue
+                    G = pgr.symmetries
+                    Gj = [elem_json(elem_of(fam, x)) for x in G]
+                    symm = bool(pgr.check_basis_symmetry(pgr.recip_lattice))
+            if kind == "group":
+                pass
             elif kind == "mul":
-                a, b = rng.choice(G), rng.choice(G)
+                a, b = random_word(rng, objs, ps), random_word(rng, objs, ps)
                 rec = dict(fn="mul", a=elem_json(elem_of(fam, a)), b=elem_json(elem_of(fam, b)), out=elem_json(elem_of(fam, a * b)))
             elif kind == "star":
                 if not symm:
@@ -644,12 +968,12 @@ def make_records(rep, rng, nrec):
                 N = rng.choice([2, 3, 4, 5, 6, 7, 8, 12])
                 k = [rng.randint(-N, 2 * N) for _ in range(3)]
                 st = pgr.star(np.array(k, dtype=float) / N)
-                rec = dict(fn="star", lat=latj, G=Gj, k=k, N=N, out=[[int(x) for x in v] for v in rint(st * N, "star")])
-            elif kind == "act":
-                g = rng.choice(G)
+                rec = dict(fn="star", lat=latj, G=Gj, k=k, N=N, out=[[int(x) for x in v] for v in rint(np.asarray(st) * N, "star")])
+            elif kind in ("act", "act4"):
+                g = random_word(rng, objs, ps)
                 rec = dict(fn="act", g=elem_json(elem_of(fam, g)), T=T, out=call_act(fam, g, T, tTR, tInv), **tj)
             elif kind == "actlaw":
-                g, h = rng.choice(G), rng.choice(G)
+                g, h = random_word(rng, objs, ps), random_word(rng, objs, ps)
                 gh = g * h
                 d0 = to_cart(fam, T).reshape((1,) + (3,) * rank)
                 hT = h.transform_tensor(d0, rank, transform_obj(tTR), transform_obj(tInv))
@@ -657,33 +981,49 @@ def make_records(rep, rng, nrec):
                 rec = dict(fn="actlaw", g=elem_json(elem_of(fam, g)), h=elem_json(elem_of(fam, h)), gh=elem_json(elem_of(fam, gh)), T=T,
                            out_g_h=from_cart(fam, ghT[0], rank), out_gh=call_act(fam, gh, T, tTR, tInv), **tj)
             elif kind == "symm":
-                if len(G) > 24:
-                    continue
                 Sj = call_symmetrize(fam, pgr, T, tTR, tInv)
                 some = rng.sample(G, min(3, len(G)))
-                rec = dict(fn="symm", G=Gj, T=T, out=Sj, out2=call_symmetrize(fam, pgr, Sj, tTR, tInv), acted=[call_act(fam, g, Sj, tTR, tInv) for g in some], **tj)
+                rec = dict(fn="symm", via="symmetrize_tensor", G=Gj, T=T, out=Sj, out2=call_symmetrize(fam, pgr, Sj, tTR, tInv),
+                           acted=[call_act(fam, g, Sj, tTR, tInv) for g in some], **tj)
+            elif kind == "symm_result":
+                res = energy_result(fam, T, tTR, tInv)
+                if res is None:
+                    skipped["PointGroup.symmetrize(EnergyResult)"] = "EnergyResult cannot be built"
+                    continue
+                Sj, lin = call_symmetrize_result(fam, pgr, res, rank)
+                if not lin:
+                    rep.violation("PointGroup.symmetrize:EnergyResult", dict(info, note="data of the second energy (3 T) is not 3 x the first"))
+                S2, _ = call_symmetrize_result(fam, pgr, energy_result(fam, Sj, tTR, tInv), rank)
+                some = rng.sample(G, min(3, len(G)))
+                rec = dict(fn="symm", via="PointGroup.symmetrize(EnergyResult)", G=Gj, T=T, out=Sj, out2=S2,
+                           acted=[call_act(fam, g, Sj, tTR, tInv) for g in some], **tj)
             elif kind == "grid":
                 nk = [rng.randint(1, 6) for _ in range(3)]
                 rec = dict(fn="grid", lat=latj, G=Gj, nk=nk, out=bool(pgr.symmetric_grid(nk)))
             elif kind == "dict":
-                if not symm or pg is None:
+                if not symm:
                     continue
                 with warnings.catch_warnings():
                     warnings.simplefilter("ignore")
-                    d = pg.as_dict()
-                    pgd = ps.PointGroup(dictionary=d)
-                dj = [dict(R=[[int(x) for x in r] for r in frame_from_cart(fam, d[f"symm{n}_R"])], TR=bool(d[f"symm{n}_TR"])) for n in range(d["nsym"])]
-                rec = dict(fn="dict", G=Gj, dict=dj, out=[elem_json(elem_of(fam, s)) for s in pgd.symmetries])
+                    pgd = ps.PointGroup(dictionary=pgr.as_dict())
+                rec = dict(fn="dict", G=Gj, out=[elem_json(elem_of(fam, x)) for x in pgd.symmetries])
             else:
-                ts = [rng.choice(TRANSFORM_NAMES + list(EXTRA_TRANSFORMS)) for _ in range(rng.choice([1, 2, 2, 3]))]
+                ts = [rng.choice(pool_t) for _ in range(rng.choice([1, 2, 2, 3]))]
+                tsj = [transform_json(any_transform(t)) for t in ts]
                 try:
                     tp = ps.TransformProduct([transform_obj(any_transform(t)) for t in ts])
-                    rec = dict(fn="tprod", ts=[transform_json(any_transform(t)) for t in ts], defined=True,
-                               out=dict(factor=int(tp.factor), conj=bool(tp.conj), axes=[int(a) for a in (tp.transpose_axes or ())]))
-                except (ValueError, NotImplementedError):
-                    rec = dict(fn="tprod", ts=[transform_json(any_transform(t)) for t in ts], defined=False, out=dict(factor=1, conj=False, axes=[]))
+                    rec = dict(fn="tprod", ts=tsj, defined=True, out=transform_json(tp))
+                except MachineryError:
+                    raise
+                except Exception:  # noqa   any exception = the product is not defined
+                    rec = dict(fn="tprod", ts=tsj, defined=False, out=dict(factor=1, conj=False, axes=[]))
         except NonIntegral as ex:
-            rep.violation(f"{kind}:non_integral", dict(lattice=latj, generators=genj, detail=str(ex)))
+            rep.violation(f"{kind}:non_integral", dict(info, detail=str(ex)))
+            continue
+        except MachineryError:
+            raise
+        except Exception as ex:  # noqa   a public call of the property raised on a valid input
+            rep.violation(f"raises:{REC_SITE.get(kind, kind)}:{type(ex).__name__}", dict(info, rank=rank, transforms=tj, error=f"{type(ex).__name__}: {ex}"[:300]))
             continue
         recs.append(rec)
         classes[kind] = classes.get(kind, 0) + 1
@@ -692,70 +1032,130 @@ def make_records(rep, rng, nrec):
 
 
 REC_CFG = 'SPECIFICATION RecSpec\nCONSTANT Variant = "code"\nINVARIANT Report\nCHECK_DEADLOCK FALSE\n'
-REC_SITE = dict(group="PointGroup.__init__", mul="PointSymmetry.__mul__", star="PointGroup.star", act="transform_tensor",
-                actlaw="transform_tensor:action_law", symm="symmetrize_tensor", grid="symmetric_grid", dict="PointGroup.as_dict",
-                tprod="TransformProduct")
+REC_SITE = dict(group="PointGroup.__init__", mul="PointSymmetry.__mul__", star="PointGroup.star", act="transform_tensor", act4="transform_tensor",
+                actlaw="transform_tensor:action_law", symm="symmetrize_tensor", symm_result="PointGroup.symmetrize", grid="symmetric_grid",
+                dict="PointGroup.as_dict", tprod="TransformProduct", rot="Rotation")
+
+
+def record_site(r):
+    if r["fn"] == "group":
+        return r.get("site", "PointGroup.__init__")
+    if r["fn"] == "symm":
+        return "symmetrize_tensor" if r.get("via") == "symmetrize_tensor" else "PointGroup.symmetrize"
+    return REC_SITE[r["fn"]]
 
 
 # ----------------------------------------------------------------------------------------- the check
 def check(pid, tier):
     rep = Report(pid, tier, "model_checking")
+    try:
+        return _check(rep, tier)
+    except Exception:
+        if rep.violations:          # never lose what was already found
+            rep.finish()
+        raise
+
+
+def _check(rep, tier):
     thorough = tier == "thorough"
     rng = random.Random(seed() * 7919 + 9)
     ps = wb()
-    W = 16
+    try:
+        busy = os.getloadavg()[0] > 24
+    except OSError:
+        busy = False
+    W = 4 if busy else 12
     rep.rule("TLC enumerates every list of <= 2 (quick, from 12 operations per family) / <= 3 (thorough) generators from a catalogue of 19 cubic-type and 17 hexagonal-type "
-             "operations (incl. time-reversed ones; thorough: 3-generator lists from 15/13 of them) on the lattices sc, hex (all lists) and "
+             "operations (incl. time-reversed ones and lists naming an operation twice; thorough: 3-generator lists from 15/13 of them) on the lattices sc, hex (all lists) and "
              "tet, ort, fcc, bcc, ohex (lists of <= 1 quick, <= 2 thorough, including operations the lattice is not invariant under), "
-             "for each group 8/20 k-points, all grids nk<=2/3, "
-             "and for sc/hex groups tensors of rank 0..3 with pairs of the six predefined Transforms; a case = one TLC state replayed on "
-             "the real code (exact comparison) or one recorded random call validated by TLC; distinct by input")
+             "for each group 8/20 k-points, all grids nk<=2/3, and for tet/ort/hex/ohex the same on a float twin with irrational axis ratios; "
+             "for sc/hex groups tensors of rank 0..3 (thorough: 4) with pairs of the six predefined Transforms; a case = one TLC state replayed on "
+             "the real code (exact comparison of sets / per-element values) or one recorded random call validated by TLC; distinct by input")
     rep.assume("integer frame matrices and tensor components: float results of the code are rounded after verifying integrality to 1e-7")
     rep.assume("PointSymmetry.__eq__ (tolerance 1e-12) is modelled as exact equality; rounding errors of products of the catalogue operations stay below it")
     rep.assume("transform_tensor is a group action only if transformTR and transformInv are commuting involutions (ValidPair); the two "
                "non-commuting pairs of predefined transforms are replayed but excluded from the action-law clauses")
 
     import time
-    t_start = time.time()
+    t_start, c_start = time.time(), cpu_s()
     timing = {}
 
     def lap(name):
-        timing[name] = round(time.time() - t_start, 1)
-    pool = ThreadPoolExecutor(max_workers=6)
-    # -------- side models, started in the background
-    loopmax = 16 if thorough else 6
-    loop_cfg = (f'SPECIFICATION Spec\nCONSTANTS\n  Variant = "code"\n  FAMS = {{"cub", "hex"}}\n  MAXGEN = 2\n  LOOPMAX = {loopmax}\n'
-                "CONSTRAINT Bounded\nINVARIANT PassIsOperator\nINVARIANT DoneIsGenerate\nINVARIANT AppendOnly\nINVARIANT DistinctTail\nCHECK_DEADLOCK FALSE\n")
-    f_loop = pool.submit(run_model, "MC_PointGroupLoop.tla", loop_cfg, "c09_loop", 3, False)
-    tr_inv = ["TransformsOK", "InvolutionCharacterised", "CommuteCharacterised", "PredefinedInvolutions", "PredefinedPairs", "ProductRule", "ProductDefinedIff"]
-    tr_cfg = 'SPECIFICATION Spec\nCONSTANTS\n  Variant = "code"\n  RANKS = {0, 1, 2, 3}\n' + "".join(f"INVARIANT {i}\n" for i in tr_inv) + "CHECK_DEADLOCK FALSE\n"
-    f_tr = pool.submit(run_model, "MC_PointGroupTransforms.tla", tr_cfg, "c09_transforms", 2, True)
-    # sensitivity self-tests: plausible wrong variants must be rejected by TLC
-    sens = {
-        "tr_or": (main_cfg(LATS_=["sc"], MAXGEN=1, ONLYC=[3, 15], invs=GROUP_INV, variant="tr_or"), {"GroupIdentity", "GroupInverses", "GroupClosed"}),
-        "star_exact": (main_cfg(LATS_=["sc"], MAXGEN=1, ONLYC=[2, 12], invs=["StarListsOnce"], variant="star_exact"), {"StarListsOnce"}),
-        "invalid_pair": (main_cfg(LATS_=["sc"], MAXGEN=2, ONLYC=[2, 3], TENSOR_LATS=["sc"], RANKS=[3], COMBOS="invalid", invs=["ActionLawUnconditional"]), {"ActionLawUnconditional"}),
-        "dup_generators": (main_cfg(LATS_=["sc"], DUPS=True, invs=["GroupClosed", "GroupIdentity", "GroupInverses", "SymIdempotent", "GroupNoDup"]), {"SymIdempotent", "GroupNoDup"}),
-    }
-    f_sens = {k: pool.submit(run_model, "MC_PointGroupAlg.tla", v[0], "c09_sens_" + k, 2, False) for k, v in sens.items()}
-
-    # -------- main model: groups
+        timing[name] = dict(wall=round(time.time() - t_start, 1), cpu=round(cpu_s() - c_start, 1))
+    pool = ThreadPoolExecutor(max_workers=3)                    # at most 3 TLC processes at a time
+    # -------- main models first (they are the long ones)
     if thorough:
-        gcfg = main_cfg(LATS_=["sc", "hex", "tet", "ort", "fcc", "bcc", "ohex"], MAXGEN=2, ORDERED=True, KSET="more", NKMAX=3, invs=GROUP_INV_THOROUGH)
+        gcfg = main_cfg(LATS_=["sc", "hex", "tet", "ort", "fcc", "bcc", "ohex"], MAXGEN=2, ORDERED=True, DUPS=True, KSET="more", NKMAX=3, invs=GROUP_INV_THOROUGH)
         g3cfg = main_cfg(LATS_=["sc", "hex"], MAXGEN=3, TRIPLES=list(range(1, 20)), KSET="few", NKMAX=2, invs=GROUP_INV,
                          ONLYC=[2, 3, 4, 6, 7, 9, 10, 12, 13, 14, 15, 16, 17, 18, 19], ONLYH=[2, 3, 4, 6, 7, 9, 10, 11, 12, 13, 14, 15, 16])
         tcfg = main_cfg(LATS_=["sc", "hex"], MAXGEN=2, TENSOR_LATS=["sc", "hex"], COMBOS="all", NGENERIC=1, MAXPAIRS=24, invs=TENSOR_INV)
         bcfg = main_cfg(LATS_=["sc", "hex"], MAXGEN=1, TENSOR_LATS=["sc", "hex"], COMBOS="few", NGENERIC=1, BASIS=True, MAXPAIRS=48, invs=TENSOR_INV)
+        r4cfg = main_cfg(LATS_=["sc", "hex"], MAXGEN=1, TENSOR_LATS=["sc", "hex"], RANKS=[4], COMBOS="few", NGENERIC=1, MAXPAIRS=8, invs=TENSOR_INV,
+                         ONLYC=[2, 3, 7, 12, 13, 15], ONLYH=[2, 3, 4, 7, 11, 14])
     else:
         # quick: 12 generators per family (My, C2y, C4y, Identity, ... are left to the thorough tier)
-        gcfg = main_cfg(LATS_=["sc", "hex"], LATS1=["tet", "ort", "fcc", "bcc", "ohex"], MAXGEN=2, invs=GROUP_INV,
+        gcfg = main_cfg(LATS_=["sc", "hex"], LATS1=["tet", "ort", "fcc", "bcc", "ohex"], MAXGEN=2, DUPS=True, invs=GROUP_INV,
                         ONLYC=[2, 3, 4, 6, 7, 9, 10, 12, 13, 15, 17, 19], ONLYH=[2, 3, 4, 6, 7, 9, 10, 11, 12, 14, 15, 16])
         g3cfg = None
         tcfg = main_cfg(LATS_=["sc", "hex"], MAXGEN=2, TENSOR_LATS=["sc", "hex"], COMBOS="few", NGENERIC=1, MAXPAIRS=12, invs=TENSOR_INV,
                         ONLYC=[2, 3, 7, 12, 13, 15], ONLYH=[2, 3, 4, 7, 11, 14])
-        bcfg = None
-    f_t = pool.submit(run_model, "MC_PointGroupAlg.tla", tcfg, "c09_tensors", 8 if not thorough else W, True)
-    st_g = run_model("MC_PointGroupAlg.tla", gcfg, "c09_groups", 6 if not thorough else W, True)
+        bcfg = r4cfg = None
+    f_g = pool.submit(run_model, "MC_PointGroupAlg.tla", gcfg, "c09_groups", W, True)
+    f_t = pool.submit(run_model, "MC_PointGroupAlg.tla", tcfg, "c09_tensors", W, True)
+    # -------- side models
+    loopmax = 16 if thorough else 6
+    loop_cfg = (f'SPECIFICATION Spec\nCONSTANTS\n  Variant = "code"\n  FAMS = {{"cub", "hex"}}\n  MAXGEN = 2\n  LOOPMAX = {loopmax}\n'
+                "CONSTRAINT Bounded\nINVARIANT PassIsOperator\nINVARIANT DoneIsGenerate\nINVARIANT AppendOnly\nINVARIANT DistinctTail\nCHECK_DEADLOCK FALSE\n")
+    f_loop = pool.submit(run_model, "MC_PointGroupLoop.tla", loop_cfg, "c09_loop", 2, False)
+    tr_inv = ["TransformsOK", "InvolutionCharacterised", "CommuteCharacterised", "PredefinedInvolutions", "PredefinedPairs", "ProductRule", "ProductDefinedIff"]
+    tr_cfg = 'SPECIFICATION Spec\nCONSTANTS\n  Variant = "code"\n  RANKS = {0, 1, 2, 3}\n' + "".join(f"INVARIANT {i}\n" for i in tr_inv) + "CHECK_DEADLOCK FALSE\n"
+    f_tr = pool.submit(run_model, "MC_PointGroupTransforms.tla", tr_cfg, "c09_transforms", 2, True)
+    # sensitivity self-tests: plausible wrong variants must be rejected by TLC (quick: two of them)
+    sens = {
+        "keep_dups": (main_cfg(LATS_=["sc"], MAXGEN=1, DUPS=True, ONLYC=[2, 7, 12], TENSOR_LATS=["sc"], RANKS=[1], invs=["GroupNoDup", "SymIdempotent"], variant="keep_dups"),
+                      {"SymIdempotent", "GroupNoDup"}),
+        "tr_or": (main_cfg(LATS_=["sc"], MAXGEN=1, ONLYC=[3, 15], invs=GROUP_INV, variant="tr_or"), {"GroupIdentity", "GroupInverses", "GroupClosed"}),
+    }
+    if thorough:
+        sens["star_exact"] = (main_cfg(LATS_=["sc"], MAXGEN=1, ONLYC=[2, 12], invs=["StarListsOnce"], variant="star_exact"), {"StarListsOnce"})
+        sens["invalid_pair"] = (main_cfg(LATS_=["sc"], MAXGEN=2, ONLYC=[2, 3], TENSOR_LATS=["sc"], RANKS=[3], COMBOS="invalid", invs=["ActionLawUnconditional"]), {"ActionLawUnconditional"})
+    f_sens = {k: pool.submit(run_model, "MC_PointGroupAlg.tla", v[0], "c09_sens_" + k, 1, False) for k, v in sens.items()}
+
+    # -------- meanwhile: the real code on inputs outside the catalogue (records for TLC)
+    skipped = {}
+    recs = rot_records(rep, ROT_CASES if thorough else ROT_CASES[::2] + ROT_CASES[1:12:2])
+    nrot = len(recs)
+    recs += spacegroup_records(rep, SG_CASES if thorough else SG_CASES[:2], skipped)
+    nsg = len(recs) - nrot
+    more, classes = make_records(rep, rng, 800 if thorough else 120, 24 if thorough else 16, skipped)
+    recs += more
+    classes.update(rot=nrot, spacegroup=nsg)
+    lap("records_made")
+    missing = [k for k in KINDS if classes.get(k, 0) == 0] + (["rot"] if nrot == 0 else [])
+    if missing:
+        raise MachineryError(f"record classes empty: {missing}")
+    # positive cases that were findings before the repairs 36802561 / 1967f736
+    rep.case(("duplicate_generators",))
+    try:
+        with warnings.catch_warnings():
+            warnings.simplefilter("ignore")
+            pgd = ps.PointGroup(["C2x", "Inversion*Mx"], real_lattice=np.eye(3))
+        if len(pgd.symmetries) != 2:
+            rep.violation("PointGroup.__init__:duplicate_generators", dict(generators=["C2x", "Inversion*Mx"], note="both generators are the operation C2x; the group is {C2x, E}",
+                                                                             expected_size=2, got_size=len(pgd.symmetries)))
+    except Exception as ex:  # noqa
+        rep.violation(f"raises:PointGroup.__init__:{type(ex).__name__}", dict(generators=["C2x", "Inversion*Mx"], error=str(ex)[:300]))
+    rep.case(("rank0_scalar",))
+    try:
+        o = ps.TimeReversal.transform_tensor(np.array(5.0), 0, ps.transform_odd, ps.transform_ident)
+        if abs(complex(o) + 5.0) > 1e-12:
+            rep.violation("transform_tensor:rank0_scalar", dict(data=5.0, element="TimeReversal", transformTR="odd", expected=-5.0, got=complex(o).real))
+    except Exception as ex:  # noqa
+        rep.violation(f"raises:transform_tensor:rank0_scalar:{type(ex).__name__}",
+                      dict(call="TimeReversal.transform_tensor(np.array(5.0), 0, transform_odd, transform_ident)", expected=-5.0, got=f"{type(ex).__name__}: {ex}"))
+
+    # -------- main model: groups
+    st_g = f_g.result()
     lap("tlc_groups_done")
     rp = Replayer(rep, rng)
     ftable.spec_violation(rep, st_g, "c09_groups")
@@ -766,7 +1166,8 @@ def check(pid, tier):
         if s["pc"] == "group":
             ng += 1
             rp.replay_group(s)
-    if ng == 0 or rp.count["group_asym"] == 0 or rp.count["star"] == 0 or max(rp.count["sizes"]) < 48:
+    if ng == 0 or rp.count["group_asym"] + len(rp.skipped) == 0 or rp.count["star"] == 0 or max(rp.count["sizes"]) < 48 or rp.count["dup_generator_lists"] == 0 \
+            or rp.count["twin_lattices"] == 0:
         raise MachineryError(f"vacuous group replay: {rp.count}")
     if g3cfg:
         st3 = run_model("MC_PointGroupAlg.tla", g3cfg, "c09_groups3", W, True)
@@ -788,16 +1189,19 @@ def check(pid, tier):
     for s in dump_states(st_t):
         if s["pc"] == "tensor":
             rp.replay_tensor(s)
-    if bcfg:
-        st_b = run_model("MC_PointGroupAlg.tla", bcfg, "c09_basis_tensors", W, True)
-        ftable.spec_violation(rep, st_b, "c09_basis_tensors")
-        rep.add_tlc("c09_basis_tensors", st_b)
-        for s in dump_states(st_b):
-            if s["pc"] == "tensor" and zlib.crc32(repr((s["gens"], s["inp"])).encode()) % 10 == 0:
-                rp.replay_tensor(s)
+    for cfg_x, name_x, keep in ((bcfg, "c09_basis_tensors", 10), (r4cfg, "c09_rank4_tensors", 1)):
+        if cfg_x:
+            st_b = run_model("MC_PointGroupAlg.tla", cfg_x, name_x, W, True)
+            ftable.spec_violation(rep, st_b, name_x)
+            rep.add_tlc(name_x, st_b)
+            for s in dump_states(st_b):
+                if s["pc"] == "tensor" and zlib.crc32(repr((s["gens"], s["inp"])).encode()) % keep == 0:
+                    rp.replay_tensor(s)
     if rp.count["tensor"] == 0 or rp.count["tensor_invalid_pair"] == 0 or rp.count["act"] < 100:
         raise MachineryError(f"vacuous tensor replay: {rp.count}")
+    rp.emit_samples()
     rep.part("replay", **{k: v for k, v in rp.count.items() if k != "sizes"}, group_sizes={str(k): v for k, v in sorted(rp.count["sizes"].items())})
+    rep.part("order_info", **rp.info, note="information only: the property fixes neither the order of PointGroup.symmetries nor the order / representatives of the star")
 
     # -------- side models
     lap("tensors_replayed")
@@ -814,63 +1218,39 @@ def check(pid, tier):
         if not s0.get("violation") or s0["violation"][1] not in sens[k][1]:
             raise MachineryError(f"sensitivity self-test failed: variant {k} should violate one of {sorted(sens[k][1])}, TLC says {s0.get('violation')}")
         rep.part("variant_" + k, violated=s0["violation"][1])
-    pool.shutdown()
     lap("side_models_done")
 
-    # -------- inputs outside the exhaustive model, decided on the real code
-    # (a) a generator list that names the same operation twice: the specification of the loop keeps both copies
-    #     (variant_dup_generators: TLC shows the list then violates SymIdempotent / GroupNoDup)
-    with warnings.catch_warnings():
-        warnings.simplefilter("ignore")
-        pgd = ps.PointGroup(["C2x", "Inversion*Mx"], real_lattice=np.eye(3))
-    T1 = dict(rank=1, re=[1, 2, 3], im=[0, 0, 0])
-    S1 = pgd.symmetrize_tensor(to_cart("cub", T1), transformTR=ps.transform_ident, transformInv=ps.transform_ident)
-    S2 = pgd.symmetrize_tensor(S1, transformTR=ps.transform_ident, transformInv=ps.transform_ident)
-    rep.case(("duplicate_generators",))
-    if pgd.size != 2 or not np.allclose(S1, S2, atol=1e-12):
-        rep.violation("PointGroup.__init__:duplicate_generators",
-                      dict(generators=["C2x", "Inversion*Mx"], note="both generators are the same operation C2x; the group is {C2x, E}",
-                           expected_size=2, got_size=pgd.size, T=[1, 2, 3], symmetrized=S1.real.tolist(), symmetrized_twice=S2.real.tolist(),
-                           tlc_counterexample=f"MC_PointGroupAlg with DUPS=TRUE violates {rep.parts.get('variant_dup_generators', {}).get('violated')}"))
-    # (b) a rank-0 tensor given as a 0-dimensional array (what symmetrize_tensor / gen_symmetric_tensor pass for rank 0)
-    rep.case(("rank0_scalar",))
-    try:
-        o = ps.TimeReversal.transform_tensor(np.array(5.0), 0, ps.transform_odd, ps.transform_ident)
-        if abs(complex(o) + 5.0) > 1e-12:
-            rep.violation("transform_tensor:rank0_scalar", dict(data=5.0, element="TimeReversal", transformTR="odd", expected=-5.0, got=complex(o).real))
-    except Exception as ex:  # noqa
-        rep.violation("transform_tensor:rank0_scalar",
-                      dict(call="TimeReversal.transform_tensor(np.array(5.0), 0, transform_odd, transform_ident)", expected=-5.0,
-                           got=f"{type(ex).__name__}: {ex}", spec="Act(TimeReversal, [rank |-> 0, re |-> <<5>>, im |-> <<0>>], odd, ident).re = <<-5>>"))
-
-    # -------- code -> spec : recorded random calls validated by TLC
-    recs, classes = make_records(rep, rng, 1600 if thorough else 240)
-    lap("records_made")
-    missing = [k for k in REC_SITE if classes.get(k, 0) == 0]
-    if missing:
-        raise MachineryError(f"record classes empty: {missing}")
-    # binding self-test: corrupted records must be rejected
+    # -------- code -> spec : recorded calls validated by TLC; the corrupted copies of the binding self-test ride in the last chunk
     corrupt = []
-    r = copy.deepcopy(next(x for x in recs if x["fn"] == "group" and len(x["out"]) >= 4))
-    r["out"][1], r["out"][2] = r["out"][2], r["out"][1]
+
+    def pick(pred, what):
+        for x in recs:
+            if pred(x):
+                return copy.deepcopy(x)
+        raise MachineryError(f"binding self-test: no record to corrupt ({what})")
+    r = pick(lambda x: x["fn"] == "group" and len(x["out"]) >= 4, "group of >= 4 elements")
+    r["out"][1] = dict(r["out"][2])                                       # an element replaced by a copy of another one
     corrupt.append((r, "equals_spec"))
-    r = copy.deepcopy(next(x for x in recs if x["fn"] == "mul"))
+    r = pick(lambda x: x["fn"] == "mul", "mul")
     r["out"]["tr"] = not r["out"]["tr"]
     corrupt.append((r, "equals_spec"))
-    r = copy.deepcopy(next(x for x in recs if x["fn"] == "star" and len(x["out"]) >= 2))
+    r = pick(lambda x: x["fn"] == "star" and len(x["out"]) >= 2, "star of >= 2 points")
     r["out"].append([r["out"][0][0] + r["N"], r["out"][0][1], r["out"][0][2]])
     corrupt.append((r, "each_image_once"))
-    r = copy.deepcopy(next(x for x in recs if x["fn"] == "act" and x["T"]["rank"] >= 1 and any(x["out"]["re"])))
+    r = pick(lambda x: x["fn"] == "act" and x["T"]["rank"] >= 1 and any(x["out"]["re"]), "act")
     j = next(k for k, v in enumerate(r["out"]["re"]) if v)
     r["out"]["re"][j] = -r["out"]["re"][j]
     corrupt.append((r, "equals_spec"))
-    nchunk = 8 if thorough else 6
-    bounds = [round(k * len(recs) / nchunk) for k in range(nchunk + 1)]
-    with ThreadPoolExecutor(max_workers=nchunk + 1) as vp:       # validate_records runs TLC with one worker: several chunks at once
-        futs = [vp.submit(ftable.validate_records, "PointGroupAlgRec.tla", REC_CFG, recs[bounds[k]:bounds[k + 1]], f"c09_{k}") for k in range(nchunk)]
-        f_self = vp.submit(ftable.validate_records, "PointGroupAlgRec.tla", REC_CFG, [c[0] for c in corrupt], "c09_selftest")
-        parts = [f.result() for f in futs]
-        _, b2 = f_self.result()
+    r = pick(lambda x: x["fn"] == "rot" and abs(x["n"]) >= 3 and not x["mirror"], "rotation of order >= 3")
+    r["n"] = -r["n"]
+    r["name"] = ""
+    corrupt.append((r, "sense"))
+    allrecs = recs + [c[0] for c in corrupt]
+    nchunk = 6 if thorough else 2
+    bounds = [round(k * len(allrecs) / nchunk) for k in range(nchunk + 1)]
+    futs = [pool.submit(ftable.validate_records, "PointGroupAlgRec.tla", REC_CFG, allrecs[bounds[k]:bounds[k + 1]], f"c09_{k}{TAG}") for k in range(nchunk)]
+    parts = [f.result() for f in futs]
+    pool.shutdown()
     bad = {}
     stv = dict(distinct=0, generated=0, wall_s=0.0, mode="record-validation")
     for k, (stk, badk) in enumerate(parts):
@@ -880,14 +1260,18 @@ def check(pid, tier):
     rep.add_tlc("c09_records", stv)
     rep.add_traces(len(recs))
     rep.part("records", **classes)
-    for i, clauses in bad.items():
-        r = recs[i]
-        rep.violation(REC_SITE[r["fn"]] + ":recorded", dict(record=r, failing_clauses=clauses))
-    rep.sample(next(x for x in recs if x["fn"] == "actlaw" and x["T"]["rank"] == 1))
-    for n, (_, clause) in enumerate(corrupt):
-        if clause not in b2.get(n, []):
-            raise MachineryError(f"binding self-test failed: corrupted {corrupt[n][0]['fn']} record accepted (clauses {b2.get(n)})")
+    for i, clauses in sorted(bad.items()):
+        if i < len(recs):
+            rep.violation(record_site(recs[i]) + ":recorded", dict(record=recs[i], failing_clauses=clauses))
+    s_ = next((x for x in recs if x["fn"] == "actlaw" and x["T"]["rank"] == 1), None)
+    if s_ is not None:
+        rep.sample(s_)
+    for n, (c, clause) in enumerate(corrupt):
+        if clause not in bad.get(len(recs) + n, []):
+            raise MachineryError(f"binding self-test failed: corrupted {c['fn']} record accepted (clauses {bad.get(len(recs) + n)})")
     lap("records_validated")
+    if skipped or rp.skipped:
+        rep.part("skipped_private", **{k.replace(" ", "_"): v for k, v in {**skipped, **rp.skipped}.items()})
     rep.part("timing_s", **timing, tlc_wall={k: v.get("wall_s") for k, v in rep.parts.items() if isinstance(v, dict) and "wall_s" in v})
-    rep.part("binding_selftest", corrupted_records_rejected={corrupt[n][0]["fn"]: b2[n] for n in range(len(corrupt))})
+    rep.part("binding_selftest", corrupted_records_rejected={corrupt[n][0]["fn"]: bad[len(recs) + n] for n in range(len(corrupt))})
     return rep.finish()
